@@ -77,13 +77,6 @@ func GetSignaturesAndPrefix(info *cmttypes.SignedHeader) ([]TMSignature, CommonE
 	if err != nil {
 		return nil, CommonEncodedVotePart{}, err
 	}
-	// Append with 4 fixed bytes
-	// 34 is a key for the CanonicalBlockID ( 34 == (4 << 3) | 2 )
-	// 72 is the length of the CanonicalBlockID message ( 72 == (1+1 + 32) + (1+1 + (1 + 1) + (1+1 + 32)) )
-	// 10 is a key for the blockHash ( 10 == (1 << 3) | 2 )
-	// 32 is the length of the blockHash
-	prefix = append(prefix, []byte{34, 72, 10, 32}...)
-
 	suffix, err := protoio.MarshalDelimited(
 		&cmtproto.CanonicalPartSetHeader{
 			Total: info.Commit.BlockID.PartSetHeader.Total,
@@ -96,6 +89,14 @@ func GetSignaturesAndPrefix(info *cmttypes.SignedHeader) ([]TMSignature, CommonE
 	// Append with 1 fixed byte
 	// 18 is a key for the CanonicalPartSetHeader ( 18 == (2 << 3) | 2 )
 	suffix = append([]byte{18}, suffix...)
+
+	// Append with 4 bytes
+	// 34 is a key for the CanonicalBlockID ( 34 == (4 << 3) | 2 )
+	// the length of the CanonicalBlockID message is (1+1 + 32) for the block hash plus the encoded
+	// CanonicalPartSetHeader field (72 in total when the number of parts fits in one varint byte)
+	// 10 is a key for the blockHash ( 10 == (1 << 3) | 2 )
+	// 32 is the length of the blockHash
+	prefix = append(prefix, []byte{34, uint8(34 + len(suffix)), 10, 32}...)
 
 	commonVote := CommonEncodedVotePart{SignedDataPrefix: prefix, SignedDataSuffix: suffix}
 
